@@ -81,7 +81,11 @@ def run(ctx):
             tx, ty = rnd.choice([(0, 0), (3, -5), (1000, 77), (-10000, 4096)])
             fr = geom.Frame(2, 1.0, float(tx), float(ty), rnd.randint(0, 5))
             try:
-                region = geom.build(s, fr)
+                if k % 4 == 1 and geom_supported(s, 'center'):
+                    # built with other parameters, masked once, then assigned the wanted parameters
+                    region = geom.build_via_assign(s, fr, lambda r: r.to_mask(mode='center'))
+                else:
+                    region = geom.build(s, fr)
                 if n == 1:
                     mask = region.to_mask(mode='center')
                     if geom_supported(s, 'subpixels'):
